@@ -53,7 +53,7 @@ class C06(Property):
         cases = []
         k = 0
         while len(cases) < n:
-            opts, names = gen.gen_options(rng, features=("alt", "cmd", "pos", "adj"), env_p=0.15, allow_catch=False)
+            opts, names = gen.gen_options(rng, features=("alt", "cmd", "pos", "adj", "grp"), env_p=0.15, allow_catch=False)
             in_alt = set()
             for x in gen.walk(opts):
                 if x["k"] == "alt":
